@@ -220,3 +220,21 @@ CHECKS["C19"] = {
          "budget_quick": 900, "budget_thorough": 7200},
     ],
 }
+
+CLI = [G + "cli_http.go", G + "c06_reload.go"] + MUX0
+C11F = [G + "c11_fetch.go"] + CLI
+CHECKS["C11"] = {
+    "technique": "inductive step on the real fillSegmentQueue from an arbitrary (playlist, current segment) state; real runTraditional / runLowLatency against a scripted symbolic server",
+    "bounds": {"quick": {"step.fill": "1..6 listed segments, media sequence and current segment in [0,2^30], ENDLIST / VOD / EVENT / untyped, 5 URI shapes, byte ranges with/without start below 10^5",
+                         "run.traditional": "window 3..5, live edge advancing 0..2 per poll, 3 segments pulled", "run.lowlatency": "3 iterations, with/without CAN-SKIP-UNTIL and hint byte range"},
+               "thorough": {"step.fill": "1..10 listed segments, byte ranges below 10^9", "run.traditional": "5 segments pulled", "run.lowlatency": "4 iterations"}},
+    "assumptions": ["net/http replaced at NewRequestWithContext / Client.Do by a request log and scripted responses; playlists travel as tags (text layer = C14/C15)",
+                    "net/url interpreted from source", "a harness thread plays the stream processor (pulls from the real segment queue)"],
+    "outside": ["real network and pacing", "several rendition playlists evolving independently (each downloader instance runs the same code)"],
+    "runs": [
+        {"name": "step.fill", "files": C11F, "fn": "VerifH_C11_fill", "workers": 16, "params_quick": {"MAXSEGS": 6}, "params_thorough": {"MAXSEGS": 10, "MAXRANGE": 999999999},
+         "reach": ["downloads", "end-of-stream", "stops-with-error"], "budget_quick": 900, "budget_thorough": 7200},
+        {"name": "run.cli.traditional", "files": C11F, "fn": "VerifH_C11_traditional", "workers": 16, "params_quick": {"POLLS": 3}, "params_thorough": {"POLLS": 5}, "reach": ["ran"]},
+        {"name": "run.cli.lowlatency", "files": C11F, "fn": "VerifH_C11_lowlatency", "workers": 16, "params_quick": {"ITERS": 3}, "params_thorough": {"ITERS": 4}, "reach": ["ran"]},
+    ],
+}
